@@ -7,6 +7,7 @@ package ocsp
 // those types can be compared with what the package really decodes. Nothing here is reachable without the tag.
 
 import (
+	"crypto"
 	"math/big"
 	"reflect"
 	"time"
@@ -93,4 +94,19 @@ func ZVTypes() map[string]reflect.Type {
 		"responseASN1":  reflect.TypeOf(responseASN1{}),
 		"basicResponse": reflect.TypeOf(basicResponse{}),
 	}
+}
+
+// ZVC13HashOIDs hands out the hashOIDs table (crypto.Hash number -> OID) sorted by hash number, and idPKIXOCSPBasic.
+func ZVC13HashOIDs() (hashes []int, oids [][]int, idBasic []int) {
+	for h := 0; h < 64; h++ {
+		if oid := getOIDFromHashAlgorithm(crypto.Hash(h)); oid != nil {
+			hashes = append(hashes, h)
+			oids = append(oids, append([]int(nil), oid...))
+		}
+	}
+	// entries getOIDFromHashAlgorithm cannot reach (h >= 64) would be a table edit the extractor must see
+	if len(hashes) != len(hashOIDs) {
+		hashes, oids = nil, nil
+	}
+	return hashes, oids, append([]int(nil), idPKIXOCSPBasic...)
 }
